@@ -11,3 +11,6 @@ package pair1
 //@
 //@ func (*socket).RecvMsg
 //@   ensures isnil(result1) && result0 != nil ==> len(result0.Header) == 0
+//@
+//@ func (*socket).GetOption
+//@   ensures name == protocol.OptionRaw ==> isnil(result1) && result0 == iface(false)
